@@ -27,6 +27,7 @@ def deviations(cls):
         out.append((['attr-special', name], lambda x, n=name: setattr(x, n, SPECIAL)))
         out.append((['attr-nonascii', name], lambda x, n=name: setattr(x, n, NONASCII)))
         out.append((['attr-empty', name], lambda x, n=name: setattr(x, n, '')))
+        out.append((['attr-mixed-case-word', name], lambda x, n=name: setattr(x, n, 'True')))
         out.append((['ext-attr-ns-clash', xmlattr], lambda x, a=xmlattr: x.extension_attributes.__setitem__(
             '{%s}%s' % (FOREIGN, a.split('}')[-1]), 'foreign-value')))
     names = []
@@ -41,6 +42,15 @@ def deviations(cls):
                     if v:
                         setattr(x, nm, [schema.base_instance(type(v[0]), 1) for _ in range(n)] if n else [])
                 out.append((['child-count', name, n], f))
+
+            def fa(x, nm=name):
+                # the very same object in two places of the tree (an instance is a tree of references, nothing
+                # forbids sharing a child)
+                v = getattr(x, nm)
+                if v:
+                    one = schema.base_instance(type(v[0]), 1)
+                    setattr(x, nm, [one, one])
+            out.append((['child-aliased', name], fa))
         else:
             out.append((['child-absent', name], lambda x, nm=name: setattr(x, nm, None)))
 
